@@ -1,6 +1,7 @@
 import CoercionModel.Model.Startup
 import CoercionModel.Model.SkeletonsMore
 import CoercionModel.Generated.F12
+import CoercionModel.Proofs.TranslatedStartup
 set_option linter.unusedSimpArgs false
 /-
   C11 — Only live Running plans are resumed; stale ones closed, others untouched.
@@ -70,5 +71,28 @@ set_option maxRecDepth 100000 in
 /-- the code this property's model mirrors still has the shape the model was written against (control-flow
     skeletons regenerated from /repo on every run, Model/SkeletonsMore) -/
 theorem facts_model_skeleton : Generated.F12.startup = SkeletonsMore.startup := by rfl
+
+/-! ### `recover.filterPlans`, translated from internal/execute/recovery.go on every run (translator T8) -/
+
+/-- the translated `filterPlans` splits the Running plans it is given into the ones that stay in `req.Data.plans`
+    (not stale) and the ones moved to `req.Data.agedOut` (stale), each in the original order -/
+theorem translated_filterPlans (maxAge now : Nat) (plans : List Stored) :
+    Generated.T8.filterPlans maxAge now plans = (plans.filter (fun p => !stale maxAge now p), plans.filter (stale maxAge now)) :=
+  TranslatedStartup.filterPlans_eq maxAge now plans
+
+/-- so, for every Running plan found at start-up: it is kept for resumption iff Model/Startup says `resumed`, and it is
+    moved to the aged-out list iff the model says `closed` — no plan is lost, none is in both lists -/
+theorem translated_fate (maxAge now : Nat) (plans : List Stored) (p : Stored) (hp : p ∈ plans) (hr : p.status = .running) :
+    (p ∈ (Generated.T8.filterPlans maxAge now plans).1 ↔ fate true maxAge now p = .resumed) ∧
+    (p ∈ (Generated.T8.filterPlans maxAge now plans).2 ↔ fate true maxAge now p = .closed) := by
+  rw [translated_filterPlans]
+  simp only [List.mem_filter, hp, true_and, fate, hr, ne_eq, not_true_eq_false, Bool.not_true, Bool.false_eq_true, ite_false]
+  by_cases h : stale maxAge now p = true
+  · simp [h]
+  · have h' : stale maxAge now p = false := by simpa using h
+    simp [h']
+
+example : (Generated.T8.filterPlans 100 1000 [{ id := 1, status := .running, lastUpdate := 950 }, { id := 2, status := .running, lastUpdate := 800 },
+    { id := 3, status := .running, lastUpdate := 900 }]).1.map (·.id) = [1, 3] := by decide
 
 end Coercion.C11
